@@ -8,18 +8,22 @@ from ..refs import dip_ref as D
 from ..refs import units_ref as R
 
 ID = "C13"
-RULE = ("[also: the program cut at a top-level line into A and B - one parser object fed A, parsed, fed B, parsed again "
-        "(first result = A before and after, second = B, and two parsers on one shared empty Environment] ""DIP texts made of group lines and typed definitions arranged in generated trees (per-parent child indentation "
-        "width 1-4, so widths vary between subtrees; a separate low-weight class with arbitrary ragged indents), names "
-        "over [A-Za-z0-9_-] with 1-3 dotted segments, interleaved blank and comment lines, trailing comments. Values: "
-        "bool, (u)int16/32/64 at and inside the width limits, floats in every documented notation, bare / single- / "
-        "double-quoted strings with blanks, '#' and escaped quotes, none, 1-3-D arrays in tight, quoted-loose and "
-        "block form, block strings, tables with int/float/str/bool columns and units. Oracle: an explicit "
-        "indentation-stack reference gives the ordered path -> (value, unit, type class, precision, sign); compared "
-        "with env.data(TUPLE) incl. key order and env.data(TYPE). Metamorphic: dropping blank/comment lines and "
-        "scaling every indent by a constant gives the same result. Non-trivial: depth >= 3 with a de-indent of >= 2 "
-        "levels, or a dotted name below a parent, or an array/table/block value below a parent. "
-        "Distinct = distinct rendered text.")
+RULE = (
+    'DIP texts made of group lines and typed definitions arranged in generated trees (per-parent child '
+    'indentation width 1-4, so widths vary between subtrees; a separate low-weight class with arbitrary ragged '
+    'indents), names over [A-Za-z0-9_-] with 1-3 dotted segments, interleaved blank and comment lines, trailing '
+    'comments. Values: bool, (u)int16/32/64 at and inside the width limits, floats in every documented notation, '
+    "bare / single- / double-quoted strings with blanks, '#' and escaped quotes, none, 1-3-D arrays in tight, "
+    'quoted-loose and block form, block strings, tables with int/float/str/bool columns and units. Oracle: an '
+    'explicit indentation-stack reference gives the ordered path -> (value, unit, type class, precision, sign); '
+    'compared with env.data(TUPLE) incl. key order and env.data(TYPE). Metamorphic: dropping blank/comment lines '
+    'and scaling every indent by a constant gives the same result. Non-trivial: depth >= 3 with a de-indent of >= '
+    '2 levels, or a dotted name below a parent, or an array/table/block value below a parent. Also: the program '
+    'cut at a top-level line into A and B - one parser object fed A, parsed, fed B, parsed again (first result = '
+    'A before and after, second = B, and two parsers on one shared empty Environment). Later rounds: the same '
+    "text through add_file; doubled backslashes in strings, cells and blocks; hash-led and '#!' block lines; "
+    'capitalised look-alikes of none / true. Distinct = distinct rendered text.'
+)
 ASSUMPTIONS = [
     "no node has children below a table (the table line is replaced by its columns)",
     "comments after a quoted value contain no quote characters (the value pattern is greedy)",
